@@ -136,6 +136,10 @@ func runC15(c *core.Ctx) {
 		c15Checksums(c)
 		return
 	}
+	if c.Idx%12 == 5 {
+		c15BulkJS(c)
+		return
+	}
 	r := c.R
 	format := gen.Formats[c.Idx%len(gen.Formats)]
 	cs := genFormatCase(c, r, format, r.Chance(1, 4))
@@ -222,6 +226,18 @@ func runC15(c *core.Ctx) {
 	if transcriptDigest(t3) != d1 {
 		report("schema-recreated", t3)
 	}
+	// a Schema object that first served a transform with OTHER external properties (and another input order), then this triple
+	if s3, err := omni.NewSchema([]byte(schema)); err == nil {
+		other := map[string]string{"ext1": "OTHER-" + gen.RandString(r, 3, false), "ext2": "other2"}
+		omni.RunAll(s3, bytes.NewReader(cs.input), omni.RunOpts{MaxReads: 5000, ExtraReads: 1, Ext: other})
+		t5 := omni.RunAll(s3, bytes.NewReader(cs.input), omni.RunOpts{MaxReads: 5000, ExtraReads: 1, Ext: ext})
+		c.Inc("digest_comparisons")
+		c.Inc("evaluations")
+		c.Inc("runs_on_a_schema_object_that_served_other_externals_first")
+		if transcriptDigest(t5) != d1 {
+			report("schema-object-served-other-externals-first", t5)
+		}
+	}
 	// same declarations, different key order in the schema text: not the same schema bytes, reported separately as an observation only
 	// warm history
 	hist := r.Range(5, 25)
@@ -241,35 +257,96 @@ func runC15(c *core.Ctx) {
 	}
 	// fresh process
 	if c.Idx%3 == 0 {
-		dir := filepath.Join(os.Getenv("VERIF_DIR"), ".build", "run", "C15x")
-		if os.Getenv("VERIF_DIR") == "" {
-			dir = "/verif/.build/run/C15x"
-		}
-		os.MkdirAll(dir, 0o755)
-		path := filepath.Join(dir, fmt.Sprintf("job-%d-%d.json", os.Getpid(), c.Idx))
-		jb, _ := json.Marshal(map[string]interface{}{"Schema": schema, "Input": base64.StdEncoding.EncodeToString(cs.input), "Ext": ext})
-		if err := os.WriteFile(path, jb, 0o644); err == nil {
-			self, _ := os.Executable()
-			cmd := exec.Command(self, "xdigest", path)
-			cmd.Env = append(os.Environ(), "GOMAXPROCS="+r.Pick("1", "2", "4", "16"))
-			out, err := cmd.CombinedOutput()
-			os.Remove(path)
-			c.Inc("fresh_process_runs")
-			c.Inc("digest_comparisons")
-			c.Inc("evaluations")
-			line := strings.TrimSpace(string(out))
-			switch {
-			case err != nil || !strings.HasPrefix(line, "DIGEST "):
-				c.Inconclusive("fresh-process run failed: " + core.Trunc(line, 300))
-			case strings.TrimPrefix(line, "DIGEST ") != d1:
-				c.Violate("C15:fresh-process:"+format, "a fresh process gives a different result sequence for the same (schema, input, externals)",
-					map[string]interface{}{"format": format, "schema": schema, "input": core.Trunc(string(cs.input), 3000), "externals": ext, "digest_here": d1, "digest_fresh": line})
-			}
-		}
+		c15Fresh(c, r, format, schema, cs.input, ext, d1)
 	}
 	if c.Idx < 12 {
 		c.Sample(map[string]interface{}{"format": format, "schema_keys_shuffled": true, "classes": core.Trunc(t1.Classes(), 80), "digest": d1})
 	}
+}
+
+// c15Fresh runs the triple in a fresh process (own node ID counter, empty caches and pools) and compares the digest.
+func c15Fresh(c *core.Ctx, r *core.Rand, format, schema string, input []byte, ext map[string]string, d1 string) {
+	dir := filepath.Join(os.Getenv("VERIF_DIR"), ".build", "run", "C15x")
+	if os.Getenv("VERIF_DIR") == "" {
+		dir = "/verif/.build/run/C15x"
+	}
+	os.MkdirAll(dir, 0o755)
+	path := filepath.Join(dir, fmt.Sprintf("job-%d-%d.json", os.Getpid(), c.Idx))
+	jb, _ := json.Marshal(map[string]interface{}{"Schema": schema, "Input": base64.StdEncoding.EncodeToString(input), "Ext": ext})
+	if err := os.WriteFile(path, jb, 0o644); err != nil {
+		return
+	}
+	self, _ := os.Executable()
+	cmd := exec.Command(self, "xdigest", path)
+	cmd.Env = append(os.Environ(), "GOMAXPROCS="+r.Pick("1", "2", "4", "16"))
+	out, err := cmd.CombinedOutput()
+	os.Remove(path)
+	c.Inc("fresh_process_runs")
+	c.Inc("digest_comparisons")
+	c.Inc("evaluations")
+	line := strings.TrimSpace(string(out))
+	switch {
+	case err != nil || !strings.HasPrefix(line, "DIGEST "):
+		c.Inconclusive("fresh-process run failed: " + core.Trunc(line, 300))
+	case strings.TrimPrefix(line, "DIGEST ") != d1:
+		c.Violate("C15:fresh-process:"+format, "a fresh process gives a different result sequence for the same (schema, input, externals)",
+			map[string]interface{}{"format": format, "schema": schema, "input": core.Trunc(string(input), 3000), "externals": ext, "digest_here": d1, "digest_fresh": line})
+	}
+}
+
+// c15BulkJS: several hundred records whose transform renders the record AND its long-lived ancestors to JSON for javascript; compared
+// between this process (node ID counter far along, caches warm) and a fresh one (counter at its start). Whatever is keyed by node IDs or
+// depends on how many nodes the process has created so far shows up as a difference.
+func c15BulkJS(c *core.Ctx) {
+	r := c.R
+	format := r.Pick("xml", "json")
+	k := gen.NewKit(r, format)
+	k.TopArray = false
+	n := r.Range(250, 900)
+	var recs []gen.Rec
+	for i := 0; i < n; i++ {
+		recs = append(recs, k.GenRec(r, i))
+	}
+	input := k.Render(r, recs, gen.RenderOpts{})
+	var doc map[string]interface{}
+	json.Unmarshal(k.Schema(gen.ModePass), &doc)
+	fo := doc["transform_declarations"].(map[string]interface{})["FINAL_OUTPUT"].(map[string]interface{})
+	jsw := func(xp, script string) map[string]interface{} {
+		m := map[string]interface{}{"custom_func": map[string]interface{}{"name": "javascript_with_context", "args": []interface{}{map[string]interface{}{"const": script}}}}
+		if xp != "" {
+			m["xpath"] = xp
+		}
+		return m
+	}
+	fo["object"] = map[string]interface{}{
+		"id":   map[string]interface{}{"xpath": "id"},
+		"self": jsw("", "JSON.stringify(_node)"),
+		"up":   jsw("..", "JSON.stringify(_node)"),
+		"up2":  jsw("../..", "JSON.stringify(_node).length"),
+		"leaf": jsw("id", "'' + _node"),
+	}
+	sb, _ := json.Marshal(doc)
+	schema := string(sb)
+	s, err := omni.NewSchema(sb)
+	if err != nil {
+		c.Inconclusive("bulk js schema rejected: " + err.Error())
+		return
+	}
+	t1 := omni.RunAll(s, bytes.NewReader(input), omni.RunOpts{MaxReads: 5000, ExtraReads: 1})
+	ok := 0
+	for _, st := range t1 {
+		if st.Class == omni.OK {
+			ok++
+		}
+	}
+	c.Inc("bulk_js_inputs")
+	c.Count("bulk_js_records", int64(ok))
+	if ok < n/2 {
+		c.Inconclusive(fmt.Sprintf("bulk js run delivered %d of %d records: %s", ok, n, core.Trunc(t1[len(t1)-1].ErrMsg, 200)))
+		return
+	}
+	c.Distinct(schema, string(input))
+	c15Fresh(c, r, format, schema, input, nil, transcriptDigest(t1))
 }
 
 // ---- checksum monitor ----
